@@ -5,6 +5,8 @@
    property's stated domain, with SupportNegativeIndices on or off.  The model is tied to the Go
    code by the correspondence run (see evidence). *)
 From JP Require Import Bytes Json Text Strings Den Pointer Rfc6902 ImplV5 Domain JsonFacts Abs EqualFacts ImplFacts RefFacts ApplyFacts Codec StrInv Depth ApplySim PointerDomain.
+From JP Require IndexTie.
+From JP.gen Require IndexGen.
 
 (* Apply on bytes.  Hypotheses = the property's domain: root object/array without duplicate names
    (tnodup), operations in op_dom (pointers "" or /tok/.../tok with non-empty tokens whose numeric
@@ -169,6 +171,34 @@ Proof. exact test_value_rel. Qed.
 Print Assumptions C01_test_is_structural_equality.
 
 (* non-vacuity: all six operations, a negative index, "-", "~1", null round trip *)
+(* The index arithmetic of partialArray.get/set/add/remove is RE-TRANSLATED from /repo/v5/patch.go on
+   every run (tools/goidx2v -> gen/IndexGen.v: Go int arithmetic with 64-bit wrap-around, every slice
+   expression with its bounds test, the slice operations as an effect list) and proved equal to the
+   model's functions for every token, option setting and array shorter than 2^63 (IndexTie.v). *)
+Theorem C01_array_get_is_the_code : forall o self ns key,
+  (ImplV5.zlen ns <= int64_max)%Z ->
+  con_get o (KAry self ns) key = IndexTie.res_node self ns (IndexGen.idx_get_gen (o_neg o) (o_allow o) (ImplV5.zlen ns) (atoi key) (bseq key)).
+Proof. exact IndexTie.con_get_tie. Qed.
+Print Assumptions C01_array_get_is_the_code.
+
+Theorem C01_array_set_is_the_code : forall o ns key v,
+  (ImplV5.zlen ns <= int64_max)%Z ->
+  ary_set o ns key v = IndexTie.res_nodes ns v (IndexGen.idx_set_gen (o_neg o) (o_allow o) (ImplV5.zlen ns) (atoi key) (bseq key)).
+Proof. exact IndexTie.ary_set_tie. Qed.
+Print Assumptions C01_array_set_is_the_code.
+
+Theorem C01_array_add_is_the_code : forall o ns key v,
+  (ImplV5.zlen ns < int64_max)%Z ->
+  ary_add o ns key v = IndexTie.res_nodes ns v (IndexGen.idx_add_gen (o_neg o) (o_allow o) (ImplV5.zlen ns) (atoi key) (bseq key)).
+Proof. exact IndexTie.ary_add_tie. Qed.
+Print Assumptions C01_array_add_is_the_code.
+
+Theorem C01_array_remove_is_the_code : forall o ns key,
+  (ImplV5.zlen ns <= int64_max)%Z ->
+  ary_remove o ns key = IndexTie.res_nodes ns NNil (IndexGen.idx_remove_gen (o_neg o) (o_allow o) (ImplV5.zlen ns) (atoi key) (bseq key)).
+Proof. exact IndexTie.ary_remove_tie. Qed.
+Print Assumptions C01_array_remove_is_the_code.
+
 Example C01_nonvacuous :
   match api_decode (B "[{""op"":""add"",""path"":""/a/-"",""value"":null},{""op"":""test"",""path"":""/a/-1"",""value"":null},{""op"":""copy"",""from"":""/a"",""path"":""/x~1y""},{""op"":""move"",""from"":""/a/0"",""path"":""/a/1""},{""op"":""replace"",""path"":""/x~1y/0"",""value"":{""k"":1.0}},{""op"":""remove"",""path"":""/b""},{""op"":""test"",""path"":""/a"",""value"":[2,1,null]}]") with
   | Some p => api_apply (mkOpts true 0 false false true [] None) [] p (B "{""a"":[1,2],""b"":0}")
